@@ -52,6 +52,7 @@ BOUNDS = {
 }
 
 _DRV = None
+_UNCONFIRMED = 10**15  # report order offset of violations not re-executed from a pristine process
 
 
 def _init(args):
@@ -78,7 +79,8 @@ def _enum_shard(item):
     rebuilt from a clean sandbox. Extensions of a violating history are not built."""
     prefix, depth, args = item
     alphabet = _DRV.alphabet
-    out = {'n': 0, 'outcomes': Counter(), 'final': Counter(), 'violations': [], 'by_len': Counter(), 'sample': None}
+    out = {'n': 0, 'outcomes': Counter(), 'final': Counter(), 'violations': [], 'by_len': Counter(), 'sample': None,
+           'artifacts': 0, 'artifact_sample': None}  # fmt: skip
     per_group = Counter()
     stack = [list(prefix)]
     try:
@@ -97,9 +99,13 @@ def _enum_shard(item):
                     if per_group[g] > 3:
                         v['detail'] = v['detail'][:160]
                     v['case'] = {'history': h, 'args': list(args)}
-                    v['order'] = _rank(h, alphabet)
+                    v['order'] = _rank(h, alphabet) + (0 if v.get('confirmed', True) else _UNCONFIRMED)
                     out['violations'].append(v)
                 continue
+            if r.get('artifacts'):
+                out['artifacts'] += 1
+                if out['artifact_sample'] is None:
+                    out['artifact_sample'] = {'history': h, 'groups': r['artifacts']}
             out['final'][r['final']] += 1
             if len(h) == depth:
                 out['sample'] = h
@@ -114,29 +120,32 @@ def _enum_shard(item):
 
 
 def enumerate_all(args, depth, seed):
-    """Every history of length 0..depth over the alphabet, nothing deduplicated."""
+    """Every history of length 0..depth over the alphabet, nothing deduplicated. This process
+    executes no history itself (workers and their pristine helpers are forked from it)."""
     _init(args)
     alphabet = _DRV.alphabet
-    tot = {'n': 0, 'outcomes': Counter(), 'final': Counter(), 'violations': [], 'by_len': Counter(), 'samples': []}
+    tot = {'n': 0, 'outcomes': Counter(), 'final': Counter(), 'violations': [], 'by_len': Counter(), 'samples': [],
+           'artifacts': 0, 'artifact_sample': None}  # fmt: skip
 
     def absorb(r):
         if 'harness_error' in r:
             raise HarnessError(r['harness_error'])
         tot['n'] += r['n']
+        tot['artifacts'] += r['artifacts']
+        tot['artifact_sample'] = tot['artifact_sample'] or r['artifact_sample']
         for k in ('outcomes', 'final', 'by_len'):
             tot[k].update(r[k])
         tot['violations'] += r['violations']
         if r['sample'] and len(tot['samples']) < 3:
             tot['samples'].append(r['sample'])
 
-    # lengths 0 and 1 in this process (they decide which shards exist), the rest sharded by 2-prefix
+    # lengths 0 and 1 first (they decide which shards exist), the rest sharded by 2-prefix
+    first = [([], 0, args)] + [([ev], 1, args) for ev in alphabet]
     shards = []
-    absorb(_enum_shard(([], 0, args)))
-    for ev in alphabet:
-        r = _enum_shard(([ev], 1, args))
+    for item, r in zip(first, pool_map(_enum_shard, first, min(NPROC, len(first)), _init, (args,))):
         absorb(r)
-        if not r.get('violations') and depth >= 2:
-            shards += [([ev, ev2], depth, args) for ev2 in alphabet]
+        if item[0] and not r['violations'] and depth >= 2:
+            shards += [(item[0] + [ev2], depth, args) for ev2 in alphabet]
     random.Random(seed).shuffle(shards)  # seed permutes traversal order only
     if shards:
         for r in pool_map(_enum_shard, shards, min(NPROC, len(shards)), _init, (args,)):
@@ -152,7 +161,9 @@ def run(tier, seed):
     balpha, bdepth, tail, enums = BOUNDS[tier]
     a = hist.explore(DRIVER, (balpha, tail), bdepth, dedup=True, seed=seed, label='dedup')
     for v in a['violations']:
-        v['order'] = _rank(v['case']['history'], cm.ALPHABETS[balpha])
+        v['order'] = _rank(v['case']['history'], cm.ALPHABETS[balpha]) + (0 if v.get('confirmed', True) else _UNCONFIRMED)
+    artifacts = sum(n for k, n in a['outcomes'].items() if k.startswith('sandbox-artifact:'))
+    artifact_sample = None
     violations = list(a['violations'])
     out = Counter()
     final = Counter()
@@ -179,7 +190,11 @@ def run(tier, seed):
         final.update(b['final'])
         samples += b['samples'][:2]
         violations += b['violations']
-    violations.sort(key=lambda v: (len(v['case']['history']), v['order'], v['kind']))
+        artifacts += b['artifacts']
+        artifact_sample = artifact_sample or b['artifact_sample']
+    violations.sort(key=lambda v: (not v.get('confirmed', True), len(v['case']['history']), v['order'], v['kind']))
+    for i, v in enumerate(violations):
+        v['order'] = i
     # explore() counts the outcome of every step of every history, the enumeration only the last
     # step of each history (= one transition each); the two histograms are kept apart
     cov = {
@@ -202,7 +217,18 @@ def run(tier, seed):
         'step_outcomes': dict(sorted(out.items())),
         'dedup_step_outcomes': dict(sorted(a['outcomes'].items())),
         'exhaustive': not a['capped'] and n_hist == full,
+        # violations seen in a worker that did not reproduce from a pristine interpreter (state other
+        # than the singleton leaked between sandboxed histories); such histories count as the pristine
+        # run says
+        'sandbox_artifacts': artifacts,
+        'sandbox_artifact_sample': artifact_sample,
+        'violations_not_reexecuted_pristine': sum(1 for v in violations if not v.get('confirmed', True)),
     }
+    if artifacts and not violations:
+        raise HarnessError(
+            f'state leaks between sandboxed histories ({artifacts} violations did not reproduce from a pristine '
+            f'process, e.g. {artifact_sample}) but no history within the bounds reproduces a violation'
+        )
     if n_hist > 20 and len(out) < 2:
         raise HarnessError(f'vacuous exploration: one outcome class {dict(out)}')
     return cov, violations
